@@ -343,7 +343,8 @@ impl<L: Label, S: Data<Elem = L>, T: AsSingleTargets<Elem = L> + Labels<Elem = L
     ToConfusionMatrix<L, &DatasetBase<R, T>> for ArrayBase<S, Ix1>
 {
     fn confusion_matrix(&self, ground_truth: &DatasetBase<R, T>) -> Result<ConfusionMatrix<L>> {
-        ground_truth.confusion_matrix(self.view())
+        // `self` is the prediction (rows), the dataset carries the ground truth (columns)
+        self.confusion_matrix(ground_truth.as_single_targets())
     }
 }
 
